@@ -10,6 +10,8 @@ unsigned long long gh_wire_cnt_w;    /* how many of them were the bytes of packe
 unsigned long long gh_wire_pos_w;    /* 1-based index in the wire log of the last transmission of packet g_o */
 unsigned long long gh_req_n, gh_req_pos;              /* <r/> elements written, index of the last one */
 unsigned long long gh_ack_n, gh_ack_pos; unsigned gh_ack_h;   /* <a h=../> elements written, index and h of the last one */
+unsigned long long gh_resume_n, gh_resume_pos; unsigned gh_resume_h; qstr gh_resume_previd;   /* <resume h=.. previd=../> elements written */
+vpromise_id gh_request_promise; ResumeRequest gh_request_alt;     /* the pending request's promise (not part of C09) */
 #define WIRE_MAX (1ull << 62)
 
 /* ---------------------------------------------------------------- representation invariant of C09 */
@@ -21,7 +23,9 @@ unsigned long long gh_ack_n, gh_ack_pos; unsigned gh_ack_h;   /* <a h=../> eleme
 #define INV_SM(s) (MAP_WF(MAP(s)) && (MAP(s).n == 0 || MAP(s).first + (MAP(s).n - 1) == (s)->m_lastOutgoingSequenceNumber))
 /* a packet value names its bytes after its promise */
 #define PKT_WF(p) ((p)->m_data.kind == WB_PACKET && (p)->m_data.id == (p)->m_promise)
-#define GHOST_OK (g_o >= 1 && 0 <= gh_reports_w && gh_reports_w <= 1 && gh_wire_n <= WIRE_MAX && gh_wire_cnt_w <= gh_wire_n && gh_req_n <= gh_wire_n && gh_ack_n <= gh_wire_n)
+/* accounting invariant (witness form): no report fires twice, and a stored packet has not been reported */
+#define INV_ACC(s) (0 <= gh_reports_w && gh_reports_w <= 1 && (!MAP(s).w_in || gh_reports_w == 0))
+#define GHOST_OK (g_o >= 1 && INV_ACC(MGR) && gh_wire_n <= WIRE_MAX && gh_wire_cnt_w <= gh_wire_n && gh_req_n <= gh_wire_n && gh_ack_n <= gh_wire_n)
 
 /* ---------------------------------------------------------------- A-QMAP: QMap<unsigned, QXmppPacket> (Qt; assumed) */
 static inline void QMapUP_ctor(QMapUP *m) { m->first = 0; m->n = 0; m->w_in = false; m->w_key = 0; m->w_stanza = false; m->broken = false; }
@@ -73,6 +77,7 @@ static inline bool XmppSocket_sendData(XmppSocket *s, const WireBytes *b)
   if (b->kind == WB_PACKET && b->id == g_o) { gh_wire_cnt_w++; gh_wire_pos_w = gh_wire_n; }
   else if (b->kind == WB_REQ) { gh_req_n++; gh_req_pos = gh_wire_n; }
   else if (b->kind == WB_ACK) { gh_ack_n++; gh_ack_pos = gh_wire_n; gh_ack_h = b->h; }
+  else if (b->kind == WB_RESUME) { gh_resume_n++; gh_resume_pos = gh_wire_n; gh_resume_h = b->h; gh_resume_previd = (qstr)b->id; }
   return nondet_bool();
 }
 /* serializeXml(SmAck{h}) / serializeXml(SmRequest{}): what SmAck::toXml / SmRequest::toXml write is the codec property C01 */
